@@ -185,6 +185,10 @@ func serversText(s *world.Snapshot) string {
 		}
 		var srv []string
 		for _, x := range s.Servers[name] {
+			if j := strings.Index(x, "{"); j >= 0 {
+				// the other keywords of the server line (`{check inter 2s}` …) are not part of this listing
+				x = x[:j]
+			}
 			i := strings.LastIndex(x, "=")
 			w := x[i+1:]
 			if w == "drain" {
